@@ -119,31 +119,40 @@ Definition scalar_payload (k : Z) (e : ev) : sres :=
   end.
 
 (* ================================================================= (a) spec level *)
+(* Kind2Wire[kind] & 7 (a Go map lookup: 0 for a kind that is not in the table) *)
+Definition kwire (k : Z) : Z := let w := wt_of_kind k in if w <? 0 then 0 else w.
+
 Definition res_bind {A B} (r : res A) (f : A -> res B) : res B :=
   match r with ROk a => f a | RErr => RErr | RUndef => RUndef end.
 
 Definition json_is_null (v : json) : bool := match v with JNull => true | _ => false end.
+
+(* leaf values: numeric scalar (bool 0/1, float/double as IEEE bits) or string/bytes *)
+Inductive leafv := LScalar (z : Z) | LBytes (b : list Z).
+Definition leaf_pval (k : Z) (l : leafv) : pval := match l with LScalar z => VScalar k z | LBytes b => VBytes k b end.
+Definition leaf_bytes (k : Z) (l : leafv) : list Z :=
+  match l with LScalar z => wenc_val (scalar_to_wire k z) | LBytes b => lenpref b end.
+Definition leaf_wt (k : Z) (l : leafv) : Z :=
+  match l with LScalar z => wt_of_wval (scalar_to_wire k z) | LBytes _ => 2 end.
+Definition is_str_ev (e : ev) : bool := match e with EvStr _ => true | _ => false end.
 
 Section Denote.
   Variable strict : bool.      (* true: only the documents on which the converter as coded is correct *)
   Variable disallow : bool.    (* conv.Options.DisallowUnknownField *)
   Variable S : schema.
 
-  (* strict: the bytes the converter's leaf conversion writes must be the bytes of the denoted value (decidable;
-     the arithmetic of the leaf codecs is C20's subject and is proved there) *)
-  Definition leaf_agrees (k : Z) (e : ev) (pv : pval) : bool :=
-    negb strict || match scalar_payload k e with SBytes b => bytes_eqb b (encode_elem pv) | _ => false end.
+  (* the callback a scalar JSON value is delivered through *)
+  Definition ev_of (v : json) : option ev :=
+    match v with JNum l => Some (EvNum l) | JStr s => Some (EvStr s) | JBool b => Some (EvBool b) | _ => None end.
 
-  Definition checked (k : Z) (e : ev) (pv : pval) : res pval := if leaf_agrees k e pv then ROk pv else RUndef.
-
-  Definition denote_scalar (k : Z) (v : json) : res pval :=
-    match v with JNull => RUndef | _ =>
+  (* the leaf value a scalar JSON value denotes for a field of kind k (v is a number, string or boolean) *)
+  Definition denote_leaf (k : Z) (v : json) : res leafv :=
     if is_int_kind k then
       match v with
       | JNum lex =>
         if lex_is_plain_int lex then
           match parse_int lex with
-          | Some z => if scalar_okb k z then checked k (EvNum lex) (VScalar k z) else RUndef
+          | Some z => if scalar_okb k z then ROk (LScalar z) else RUndef
           | None => RUndef
           end
         else RUndef
@@ -152,9 +161,8 @@ Section Denote.
     else if k =? 14 then
       match v with
       | JNum lex =>
-        if strict then RUndef      (* as coded: enum fields are rejected *)
-        else if lex_is_plain_int lex then
-          match parse_int lex with Some z => if in_sb 32 z then ROk (VScalar 14 z) else RUndef | None => RUndef end
+        if lex_is_plain_int lex then
+          match parse_int lex with Some z => if in_sb 32 z then ROk (LScalar z) else RUndef | None => RUndef end
         else RUndef
       | JStr _ => RUndef           (* enum value names are not part of the abstract schema *)
       | _ => RErr
@@ -168,18 +176,32 @@ Section Denote.
           if neg && (m =? 0) then RUndef        (* the sign of zero is left open *)
           else
             let bits := if k =? 2 then dec2f32 (neg, m, e) else dec2f64 (neg, m, e) in
-            if (if k =? 2 then f32_is_finite bits else f64_is_finite bits)
-            then checked k (EvNum lex) (VScalar k bits) else RUndef
+            if (if k =? 2 then f32_is_finite bits else f64_is_finite bits) then ROk (LScalar bits) else RUndef
         end
       | _ => RErr
       end
     else if k =? 8 then
-      match v with JBool b => ROk (VScalar 8 (if b then 1 else 0)) | _ => RErr end
+      match v with JBool b => ROk (LScalar (if b then 1 else 0)) | _ => RErr end
     else if k =? 9 then
-      match v with JStr s => if utf8_valid s && jbytes_okb s then ROk (VBytes 9 s) else RUndef | _ => RErr end
+      match v with JStr s => if utf8_valid s && jbytes_okb s then ROk (LBytes s) else RUndef | _ => RErr end
     else if k =? 12 then
-      match v with JStr s => match b64_decode s with Some b => ROk (VBytes 12 b) | None => RUndef end | _ => RErr end
-    else RUndef
+      match v with JStr s => match b64_decode s with Some b => ROk (LBytes b) | None => RUndef end | _ => RErr end
+    else RUndef.
+
+  (* strict: what the converter's leaf conversion writes must be the wire form of the denoted value (decidable, evaluated
+     per case by the checker; the arithmetic of the leaf codecs is C20's subject).  As coded, enum fields, uint64 >= 2^63,
+     a float32 that suffers double rounding ... fail this test. *)
+  Definition leaf_agrees (k : Z) (e : ev) (l : leafv) : bool :=
+    negb strict ||
+    (match scalar_payload k e with SBytes b => bytes_eqb b (leaf_bytes k l) | _ => false end
+     && (leaf_wt k l =? kwire k)
+     && Bool.eqb (is_str_ev e) (match l with LBytes _ => true | LScalar _ => false end)
+     && Bool.eqb (is_numeric k) (match l with LBytes _ => false | LScalar _ => true end)).
+
+  Definition denote_scalar (k : Z) (v : json) : res pval :=
+    match ev_of v with
+    | None => match v with JNull => RUndef | _ => RErr end
+    | Some e => res_bind (denote_leaf k v) (fun l => if leaf_agrees k e l then ROk (leaf_pval k l) else RUndef)
     end.
 
   (* map key from the member name; supported key kinds: int32 int64 uint32 uint64 bool string *)
@@ -276,6 +298,7 @@ Section Denote.
         | None => if disallow then RErr else den_members md r
         | Some fd =>
           if json_is_null v then (if strict then RUndef else den_members md r)
+          else if strict && negb ((1 <=? fd_num fd) && (fd_num fd <=? MAX_FIELD_NUMBER)) then RUndef
           else
             res_bind (den_field fd v) (fun ov =>
             res_bind (den_members md r) (fun fs =>
@@ -360,9 +383,6 @@ Definition g_message (S : schema) (g : gdesc) : option (option mdesc) :=
   | GField fd | GMapVal fd => Some (match fd_type fd with TMsg name => find_msg S name | TScalar _ => None end)
   end.
 
-(* Kind2Wire[kind] & 7 (a Go map lookup: 0 for a kind that is not in the table) *)
-Definition kwire (k : Z) : Z := let w := wt_of_kind k in if w <? 0 then 0 else w.
-
 Definition append_tag (buf : list Z) (num wt : Z) : option (list Z) :=
   if (num <? 1) || (num >? MAX_FIELD_NUMBER) then None else Some (buf ++ varint_enc (num * 8 + wt)).
 
@@ -430,8 +450,6 @@ Section Machine.
   Definition on_null (st : mstate) : mres :=
     if m_inskip st then MOk (set_inskip st false)
     else match push st nil_frame with MOk st' => on_value_end st' | r => r end.
-
-  Definition is_str_ev (e : ev) : bool := match e with EvStr _ => true | _ => false end.
 
   (* OnBool / OnString / OnInt64 / OnFloat64 *)
   Definition on_scalar (e : ev) (st : mstate) : mres :=
@@ -665,3 +683,7 @@ Definition sax_run (disallow : bool) (S : schema) (root : list Z) (junk : list Z
 Definition junk0 : list Z := [0;0;0;0;0;0;0;0;0].
 Definition j2p_machine (disallow : bool) (S : schema) (root : list Z) (j : json) : outcome :=
   sax_run disallow S root junk0 (events j).
+
+(* schemas without map fields (domain of the partial refinement theorem) *)
+Definition nomap_schema (S : schema) : bool :=
+  forallb (fun md => forallb (fun fd => match fd_label fd with LMap _ => false | _ => true end) (md_fields md)) S.
